@@ -53,6 +53,8 @@ def plan(tier, seed):
     for s in range(n):
         jobs.append({"variant": "py" if s % 2 else "c", "part": "args", "shard": s, "nshards": n, "params": {"maxlen": 4 if thorough else 3}})
     jobs.append({"variant": "c", "part": "huge", "params": {}})
+    jobs.append({"variant": "c", "part": "values", "params": {}})
+    jobs.append({"variant": "py", "part": "values", "params": {}})
     jobs.append({"variant": "c", "part": "cacheapi", "params": {}})
     jobs.append({"variant": "py", "part": "cacheapi", "params": {}})
     jobs.append({"variant": "py", "part": "huge", "params": {"small": True}})
@@ -354,6 +356,51 @@ def run_cacheapi(ctx):
     ctx.sample({"at": "cache_info", "cache_config": {"idna_encode_size": "0"}})
 
 
+def run_values(ctx):
+    """Documented VALUE types for queries and ports, at their extremes: ints / floats and their subclasses (enum mixins, wrappers) from
+    tiny to astronomically large, plus wrong types - through every query-building entry point and argument form."""
+    import enum
+    from multidict import MultiDict
+    from yarl import URL
+    from ..ops import IntSub, FloatSub, StrSub
+
+    class Serial(int, enum.Enum):
+        HUGE = 2**1100
+        NEG = -(2**1100)
+        ONE = 1
+
+    class Ratio(float, enum.Enum):
+        MAX = 1.7976931348623157e308
+        TINY = 5e-324
+
+    values = [0, -1, 2**63, 2**1024 - 1, 2**1024, 10**400, -(10**400), 10**4299, 10**4300, 10**5000, IntSub(2**1024), IntSub(10**400), IntSub(-(2**2000)), IntSub(10**4400), Serial.HUGE, Serial.NEG,
+              Serial.ONE, 1.7976931348623157e308, -1.7976931348623157e308, 5e-324, FloatSub(1.7976931348623157e308), FloatSub(5e-324), Ratio.MAX, Ratio.TINY, float("inf"), float("nan"),
+              FloatSub(float("inf")), True, None, b"x", 1j, [1], (2**1100,), [IntSub(2**1100)], {"a": 1}, object(), StrSub("s t"), "\udc80", 10**30 + 0.5]
+    base = URL("http://h/p?a=1&b=2#f")
+    n = 0
+    for v in values:
+        forms = [("with_query(dict)", lambda: base.with_query({"k": v})), ("with_query(kwargs)", lambda: base.with_query(k=v)), ("with_query(pairs)", lambda: base.with_query([("k", v)])),
+                 ("with_query(list value)", lambda: base.with_query({"k": [1, v]})), ("with_query(MultiDict)", lambda: base.with_query(MultiDict([("k", v)]))), ("extend_query(dict)", lambda: base.extend_query({"k": v})),
+                 ("extend_query(pairs)", lambda: base.extend_query([("k", v)])), ("update_query(dict)", lambda: base.update_query({"a": v})), ("update_query(pairs)", lambda: base.update_query([("a", v)])),
+                 ("update_query(kwargs)", lambda: base.update_query(a=v)), ("mod(dict)", lambda: base % {"k": v}), ("build(query dict)", lambda: URL.build(scheme="http", host="h", query={"k": v})),
+                 ("build(query pairs)", lambda: URL.build(scheme="http", host="h", query=[("k", v)])), ("with_query(key)", lambda: base.with_query({v: "x"}) if isinstance(v, (str, int, float)) and not isinstance(v, bool) else None),
+                 ("with_port", lambda: base.with_port(v)), ("build(port)", lambda: URL.build(scheme="http", host="h", port=v))]
+        for tag, fn in forms:
+            ok, r = call(fn)
+            n += 1
+            ctx.count("value_calls")
+            ctx.ev(("value", tag, type(v).__name__, (repr(v)[:12] if not isinstance(v, int) or isinstance(v, bool) else "int~2**%d" % v.bit_length()), "ok" if ok else type(r).__name__))
+            if not ok:
+                if not allowed(r):
+                    ctx.fail("exception_type", {"at": tag, "value_type": type(v).__name__, "value": repr(v)[:60]}, f"{tag} with {type(v).__name__} {repr(v)[:40]} raised {type(r).__name__}: {str(r)[:120]}")
+                continue
+            if isinstance(r, URL):
+                ok2, s2 = call(str, r)
+                if not ok2:
+                    ctx.fail("returned_object_unrenderable", {"at": tag, "value": repr(v)[:60]}, f"str({tag}) raised {type(s2).__name__}: {s2}")
+    ctx.sample({"at": "with_query(dict)", "value_type": "IntSub", "value": "2**1024"})
+
+
 def run_huge(ctx):
     from yarl import URL
 
@@ -567,7 +614,7 @@ def run(ctx):
             ctx.notes["replay"] = "fault/structured case: " + repr(c)
             ctx.ev(("replay",))
         return
-    {"shapes": run_shapes, "args": run_args, "huge": run_huge, "cacheapi": run_cacheapi, "faults": run_faults}[ctx.part](ctx)
+    {"shapes": run_shapes, "args": run_args, "huge": run_huge, "cacheapi": run_cacheapi, "values": run_values, "faults": run_faults}[ctx.part](ctx)
 
 
 def finalize(merged, results, tier):
